@@ -142,6 +142,45 @@ def run(tier, seed, model):
                  "x {host, host:N, host::P} x 14 numbers; 14 bracketed IPv6 literals x the same forms; the four rejection shapes) "
                  "plus random 1-3 edit neighbours; real parse_server vs expected tuple and vs the extracted Coq model; "
                  "non-trivial = string with an expected result by the grammar (distinct strings)")
+    # --- the library entry point hands the connector exactly what the grammar says (api.connect -> parse_server -> connect)
+    from vncdotool import api
+    seen = []
+
+    class FakeReactor:
+        running = True
+
+    class RecProxy:
+        def __init__(self, factory, timeout):
+            pass
+
+        def connect(self, host, port=5900, family=0):
+            seen.append((FAM.get(family, family), host, port))
+    saved_reactor = api.reactor
+    api.reactor = FakeReactor()
+    try:
+        extra = [":3", "::6001", "nas.example.org", "vnc-lab:2", "c::5901", "vnc", "n:1", "v.example:0", "/" + "nonexistent/vnc.sock", sockpath]
+        pool = [(s_, e) for s_, e, _k in cases if isinstance(e, tuple)]
+        sample = rng.sample(pool, min(250, len(pool))) + [(x, None) for x in extra]
+        for srv, exp in sample:
+            if exp is None:
+                exp = real(srv)
+                if exp[0] == "error":
+                    continue
+            seen.clear()
+            try:
+                api.connect(srv, None, api.VNCDoToolFactory, RecProxy, None)
+                got = seen[0] if seen else ("no-connect",)
+            except Exception as e:  # noqa: BLE001
+                got = ("error", type(e).__name__)
+            camp.evaluations += 1
+            camp.count("api.connect")
+            camp.nontrivial.add(("api", srv))
+            if tuple(got) != tuple(exp):
+                camp.oracle_failures.append({"kind": "oracle", "property": "C20", "case": {"server": srv, "expected": list(exp), "api": True},
+                                             "what": f"api.connect({srv!r}) handed {got!r} to the connector, the documented grammar says {tuple(exp)!r}"})
+                break
+    finally:
+        api.reactor = saved_reactor
     # --- the file system may change between two calls: "UNIX for an existing socket path" is about NOW
     hist = os.path.join(tmp, "later.sock")
     steps = [("before it exists", False), ("after it was created", True), ("asked again", True), ("after it was removed", False),
@@ -172,6 +211,8 @@ def run(tier, seed, model):
 
 
 def replay(payload):
+    if payload["case"].get("api"):
+        return True, "replay: api.connect case; re-run ./check C20"
     if "history" in payload["case"]:
         return True, "replay: file-system history case; re-run ./check C20"
     s = payload["case"]["server"]
